@@ -156,6 +156,9 @@ func (d *jsonlineDecoder) readArray() ([]DecodedAmmo, error) {
 	if err != nil {
 		return nil, fmt.Errorf("cant readArray, err: %w", err)
 	}
+	if _, err = d.decoder.Token(); err != io.EOF {
+		return nil, fmt.Errorf("cant readArray, unexpected data after the end of the array")
+	}
 	result := make([]DecodedAmmo, len(data))
 	for i, datum := range data {
 		header := d.decodedConfigHeaders.Clone()
